@@ -83,6 +83,38 @@ def check_accounting(ck, cm: CacheModel):
                         ck.ob(R, fa.key(st, "del-queue"), bool(rem),
                               "key removed from the recency queue in the same method" if rem else
                               "the deleted key is not removed from the recency queue", fa.where(st))
+            # ---- deletions through pop()
+            for c in [c for c in A.calls_in(st) if A.call_attr(c) in ("pop", "popitem") and self_attr(A.call_recv(c), cm.map)] if not isinstance(st, (ast.If, ast.For, ast.While, ast.With, ast.Try)) else []:
+                k = A.norm(c.args[0]) if c.args else "?"
+                ok = False
+                edge_ok = None
+                why = "the popped entry's size is not subtracted from %s" % cm.counter
+                if isinstance(st, ast.AugAssign) and isinstance(st.op, ast.Sub) and self_attr(st.target, cm.counter) \
+                        and isinstance(st.value, ast.Attribute) and st.value.attr == "obj_size" and st.value.value is c:
+                    ok = True
+                elif isinstance(st, ast.Assign) and st.value is c and isinstance(st.targets[0], ast.Name):
+                    ename = st.targets[0].id
+                    subs = [s2 for s2 in fa.stmts(ast.AugAssign) if isinstance(s2.op, ast.Sub) and self_attr(s2.target, cm.counter)
+                            and A.norm(s2.value) == ename + ".obj_size"]
+                    # every path from the pop to the exit either subtracts or found nothing (entry is None)
+                    none_tests = [n.id for n in fa.cfg.nodes if n.kind == "test" and A.norm(n.ast) in ("%s is None" % ename, "not %s" % ename, "%s is not None" % ename, ename)]
+                    def edge_ok(s_, d_, l_, nt=none_tests):
+                        if s_ in nt:
+                            t = A.norm(fa.cfg.node(s_).ast)
+                            neg = t.endswith("is None") or t.startswith("not ")
+                            return not ((neg and l_ == "T") or (not neg and l_ == "F"))
+                        return True
+                    ok = bool(subs) and all(fa.cfg.exit not in fa.cfg.reach([i], removed=fa.nodes_all(subs), edge_ok=edge_ok, include_start=False) for i in fa.nodes(st))
+                ck.ob(R, fa.key(st, "pop-map"), ok, "pop() balanced by counter decrement" if ok else why, fa.where(st))
+                rem = [x for x in fa.calls("remove") if self_attr(A.call_recv(x), cm.queue) and x.args and A.norm(x.args[0]) == k]
+                # the queue entry goes whenever the key may be queued, also when it was not resident
+                qtests = [n.id for n in fa.cfg.nodes if n.kind == "test" and "in self.%s" % cm.queue in A.norm(n.ast)]
+                okq = bool(rem) and all(fa.cfg.exit not in fa.cfg.reach([i], removed=fa.nodes_all(rem) + qtests, edge_ok=edge_ok, include_start=False)
+                                        for i in fa.nodes(st))
+                ck.ob(R, fa.key(st, "pop-queue"), okq,
+                      "the popped key is removed from the recency queue on every path" if okq else
+                      "a key deleted from the resident map can stay in the recency queue (early return / no queue.remove): a stale queue slot "
+                      "later evicts a freshly written entry instead of the least recently used one", fa.where(st))
             # ---- insertions
             if isinstance(st, ast.Assign):
                 for t in st.targets:
@@ -139,6 +171,8 @@ def check_accounting(ck, cm: CacheModel):
                 paired = any(
                     (isinstance(s2, ast.Delete) and any(isinstance(t, ast.Subscript) and self_attr(t.value, cm.map) for t in s2.targets))
                     or (isinstance(s2, ast.Assign) and any(isinstance(t, ast.Subscript) and self_attr(t.value, cm.map) for t in s2.targets))
+                    or any(A.call_attr(c) in ("pop", "popitem") and self_attr(A.call_recv(c), cm.map) for c in A.calls_in(s2)
+                           if not isinstance(s2, (ast.If, ast.For, ast.While, ast.With, ast.Try)))
                     for s2 in blk)
                 ck.ob(R, fa.key(st, "counter-aug"), paired,
                       "counter adjustment sits beside a map mutation" if paired else
@@ -374,8 +408,10 @@ def check_forget(ck, cm: CacheModel, rule="C06.R5"):
                   "forget_everything does not clear the resident map / weak refs on every path", fa.where())
         else:
             ev = [c for c in fa.calls(cm.evict.name) if cm.is_self_call(c, cm.evict)]
-            ok = bool(ev)
-            if name == "forget_call" and ok:
+            own_del = [c for c in fa.calls() if A.call_attr(c) in ("pop", "popitem") and self_attr(A.call_recv(c), cm.map)] + \
+                [d for d in fa.stmts(ast.Delete) if any(isinstance(t, ast.Subscript) and self_attr(t.value, cm.map) for t in d.targets)]
+            ok = bool(ev) or bool(own_del)  # own deletion sites are held to the accounting rule R1
+            if name == "forget_call" and ev:
                 ok = fa.cfg.must_pass(fa.nodes_all(ev), fa.cfg.exit)
             ck.ob(rule, fa.key(None, "evicts"), ok, "%s evicts through the accounting helper" % name if ok else
                   "%s does not evict through the accounting helper on every path" % name, fa.where())
